@@ -18,7 +18,9 @@ RULE = ('case = up to 6 requests with patterns sharing prefixes of length 1..4 a
         '(request script, loss script, observed transmission-time vector).')
 ASSUMPTIONS = ['virtual time: library processing takes zero time, so retransmission instants are exact',
                'two requests with identical patterns pending at once are not generated (the library keys timers by pattern)']
-REQUIRED = ['mon.cases_with_a_second_crazyflie_object_waiting_for_the_same_answer',
+REQUIRED = ['mon.answers_that_were_the_first_packet_the_object_ever_received',
+            'mon.set_up_requests_of_the_library_on_a_link_without_delivery_guarantee',
+            'mon.cases_with_a_second_crazyflie_object_waiting_for_the_same_answer',
             'mon.requests_issued_from_the_callback_of_the_previous_answer_with_the_same_expectation',
             'mon.sessions_ended_by_a_link_error_with_requests_pending', 'mon.connection_attempts_failed_with_requests_pending', 'mon.requests', 'mon.retransmissions_expected', 'mon.retransmissions_observed', 'mon.cancelled_by_reply',
             'mon.never_answered_windows', 'mon.reliable_link_cases', 'mon.close_reopen_cases', 'mon.timers_observed',
@@ -39,6 +41,7 @@ def cases(tier, seed):
                     'sched': rnd.choice(('rtb', 'random', 'pct')), 'quarter': rnd.randint(0, 11)})
     out += [{'seed': seed * 11 + i, 'kind': ('failopen', 'lostreopen')[i % 2], 'sched': rnd.choice(('rtb', 'random', 'pct'))}
             for i in range(60 if tier == 'quick' else 400)]
+    out += [{'seed': seed * 13 + i, 'kind': 'firstreply', 'sched': rnd.choice(('rtb', 'random', 'pct'))} for i in range(24 if tier == 'quick' else 200)]
     out += [{'seed': seed * 7 + i, 'kind': 'radioflag'} for i in range(2 if tier == 'quick' else 12)]
     out += [{'seed': seed * 5 + i, 'kind': 'usbclose'} for i in range(2 if tier == 'quick' else 12)]
     return out
@@ -292,8 +295,65 @@ def run_lost(desc, ctx):
         ctx.count('obs.patterns_left_registered_in_the_new_session', ob['patterns_left'])
 
 
+def run_firstreply(desc, ctx):
+    """The first packet a Crazyflie object ever receives is the answer to a pending request (the library's own first
+    packet was lost on the air and is not one that is retried): that request is answered like any other and not
+    transmitted again."""
+    from vf import detsched as ds, simlink
+    from cflib.crazyflie import Crazyflie
+    from cflib.crtp.crtpstack import CRTPPacket
+    rnd = random.Random(desc['seed'])
+    prof = gen.profile(desc['seed'], 1, 1, proto=10)
+    T = rnd.choice((0.05, 0.2, 1.0))
+    pat = [rnd.randrange(1, 250) for _ in range(rnd.randint(1, 3))]
+    r = {'uid': 200, 'chan': rnd.randrange(4), 'pattern': pat, 'T': T, 'lose_tx': 0, 'lose_reply': 0, 'delay': rnd.choice((0.0, 0.3 * T)),
+         'reply': bytes(pat) + bytes([rnd.randrange(1, 250), 200])}
+    dev = Responder(prof, {200: r})
+    spec = simlink.LinkSpec(dev, needs_resending=True, latency=0.0)
+    uri = 'sim://c10first'
+    simlink.SIMS[uri] = spec
+    lost = rnd.randint(1, 3)
+    spec.tx_filter = lambda sp, n, h, d: n > lost or (h >> 4) & 0xF == PORT      # the first packet(s) of the set-up are lost on the air
+    ob = {}
+
+    def fn(s):
+        dev.now = lambda: s.now
+        cf = Crazyflie()
+        cf.open_link(uri)
+        dev.get_link = lambda: cf.link
+        s.sleep(0.01)
+        ob['rx_before'] = len(spec.rx)
+        pk = CRTPPacket()
+        pk.set_header(PORT, r['chan'])
+        pk.data = bytes(pat) + bytes([200])
+        ob['t0'] = s.now
+        cf.send_packet(pk, expected_reply=tuple(pat), timeout=T)
+        s.sleep(6 * T + 0.5)
+        ob['t1'] = s.now
+        cf.close_link()
+        s.sleep(0.3)
+    _, abort, sch = harness.sched_case(fn, seed=desc['seed'], policy=desc['sched'], horizon=2000.0)
+    ctx.evals()
+    rp = dict(desc)
+    if abort is not None or sch.deaths:
+        ctx.violate('retry:hang:first-reply', {'abort': str(abort), 'deaths': [d[1] for d in sch.deaths][:2]}, replay=rp)
+        return
+    mine = [t[0] for t in spec.tx if (t[2] >> 4) & 0xF == PORT and t[3] and t[3][-1] == 200]
+    got = [x for x in spec.rx if (x[2] >> 4) & 0xF == PORT]
+    if ob.get('rx_before') == 0 and got:
+        ctx.count('mon.answers_that_were_the_first_packet_the_object_ever_received')
+        ctx.nontrivial(('firstreply', tuple(pat), T, sch.signature()))
+        late = [round(t - ob['t0'], 4) for t in mine if t > got[0][0] + 1e-7]
+        if late:
+            ctx.violate('retry:retransmitted-after-the-answer',
+                        {'answer_was_the_first_packet_ever_received': True, 'T': T, 'answered_at_offset': round(got[0][0] - ob['t0'], 4),
+                         'late_offsets': late[:5]}, replay=rp)
+
+
 def run(desc, ctx):
     harness.init()
+    if desc.get('kind') == 'firstreply':
+        return run_firstreply(desc, ctx)
     if desc.get('kind') in ('failopen', 'lostreopen'):
         return run_lost(desc, ctx)
     if desc.get('kind') == 'radioflag':
@@ -500,6 +560,20 @@ def run(desc, ctx):
             V('retry:request-of-another-crazyflie-object-stopped-being-retried',
               {'T': T0, 'window': span, 'retransmissions': n, 'expected_at_least': int(span / T0) - 1,
                'offsets': [round(t - ob['bystander_sent_at'], 4) for t in ob['bystander_tx'][:8]]})
+    # the library's own requests of the connection set-up go through the same mechanism: on this loss-free link every
+    # one of them is answered at once, so none is transmitted a second time (the very first packet an object receives
+    # is the answer to its first request)
+    if needs:
+        seen_tx = {}
+        for t in spec.tx[:ob['tx0']]:
+            if t[1] == ob['session1']:
+                seen_tx.setdefault((t[2], t[3]), []).append(t[0])
+        ctx.count('mon.set_up_requests_of_the_library_on_a_link_without_delivery_guarantee', len(seen_tx))
+        again = {k: v for k, v in seen_tx.items() if len(v) > 1}
+        if again:
+            k0 = sorted(again)[0]
+            V('retry:set-up-request-of-the-library-transmitted-again-although-answered',
+              {'header': k0[0], 'data': k0[1].hex(), 'times': [round(x, 4) for x in again[k0]][:5], 'requests_repeated': len(again)})
     tx = spec.tx[ob['tx0']:]
     rx = spec.rx[ob['rx0']:]
     mine_tx = [t for t in tx if (t[2] >> 4) & 0xF == PORT]
